@@ -226,6 +226,10 @@ class Composite(LexicalParent[Node], HasCreator, Node, ABC):
                 # Running children will find serialized result and proceed,
                 # or raise an error because they're already running
         else:  # Start fresh
+            for node in self:
+                # A previous run may have stopped midway (e.g. a child failed); what
+                # the all-of triggers had collected by then belongs to that run
+                node.signals.input.accumulate_and_run.reset()
             for node in self.starting_nodes:
                 try:
                     node.run()
